@@ -3,6 +3,7 @@
 from __future__ import annotations
 
 import copy
+import os
 import dataclasses
 import json
 import random
@@ -265,3 +266,53 @@ def image_ok(td, got, exp, ref=None, datum=None) -> bool:
     if isinstance(td, M.Coll) and td.kind in ("list", "tuplevar"):
         return type(got) is type(exp) and len(got) == len(exp) and all(image_ok(td.t, g, e) for g, e in zip(got, exp))
     return deep_eq(got, exp)
+
+
+def replay_case(rp: dict) -> int:
+    """re-run one recorded case against the current tree: exit 1 iff it still fails"""
+    from apischema import ValidationError
+    from apischema.deserialization import deserialization_method
+
+    case = rp.get("case", {})
+    kind = rp.get("signature", "").split(":")[0]
+    realm = M.Realm("replay")
+    M.install_typing(realm)
+    for o in P.OBJECTS + [P.PQ_Q, P.A2, P.CAT, P.DOG, P.BIRD, P.FISH]:
+        M.realize(o, realm)
+    rng = random.Random(0)
+    for tier in ("quick", "thorough"):
+        for td in P.type_pool(tier):
+            if short(td) != case.get("type"):
+                continue
+            o = OPTION_SETS[case["options"]]
+            P.set_sample_aliaser(o.get("aliaser"))
+            tp = M.realize(td, realm)
+            meth = deserialization_method(tp, **o)
+            for t2 in ("quick", "thorough"):
+                for d in P.data_pool(td, t2, random.Random(int(os.environ.get("VERIF_SEED", "0")))):
+                    if repr(d) != case.get("datum"):
+                        continue
+                    before = copy.deepcopy(d)
+                    exp = M.ref_deserialize(td, copy.deepcopy(d), realm, mk_opts(o)) if case["options"] != "coerce" else ("?", None)
+                    try:
+                        got = ("ok", meth(d))
+                    except ValidationError as e:
+                        got = ("err", [(tuple(x["loc"]), x["err"]) for x in e.errors])
+                    except Exception as e:
+                        got = ("crash", f"{type(e).__name__}: {e}")
+                    print("type    :", short(td))
+                    print("options :", case["options"])
+                    print("datum   :", repr(d))
+                    print("observed:", repr(got)[:500])
+                    print("required:", repr(exp)[:500])
+                    failing = (
+                        got[0] == "crash"
+                        or (kind == "input-mutated" and not deep_eq(before, d))
+                        or (exp[0] != "?" and got[0] != exp[0])
+                        or (exp[0] == "ok" and got[0] == "ok" and not image_ok(td, got[1], exp[1], M.Ref_(realm, mk_opts(o)), d))
+                        or (exp[0] == "err" and got[0] == "err" and (sorted(got[1], key=repr) != sorted(exp[1], key=repr) or not ordered(got[1])))
+                    )
+                    print("STILL FAILING" if failing else "no longer failing")
+                    return 1 if failing else 0
+    print("case not found in the pools of this version of the driver")
+    return 3
